@@ -352,6 +352,14 @@
 		call $heap_alignment8
 		local.set $size
 
+		;; 至少分配8字节: 0字节的请求会与 l128 链表头(size=0)完全匹配, 导致链表头被摘下返回
+		local.get $size
+		i32.eqz
+		if
+			i32.const 8
+			local.set $size
+		end
+
 		;; 根据大小返回对应空闲链表的地址
 		;; 并返回对齐到8字节的大小
 		;; $free_list, $size = $heap_free_list_header.ptr_and_fixed_size(size)
